@@ -97,7 +97,23 @@ pub fn run_case(tape: &mut Tape, _tier: Tier, _p: &CaseParams) -> CaseOutcome {
       let deps: BTreeMap<String, BTreeSet<String>> = g
         .packages
         .packages_with_deps()
-        .map(|(nv, d)| (nv.to_string(), d.map(|r| r.to_string()).collect()))
+        .map(|(nv, d)| {
+          (
+            nv.to_string(),
+            d.map(|r| {
+              format!(
+                "{}:{}",
+                if r.kind == deno_semver::package::PackageKind::Jsr {
+                  "jsr"
+                } else {
+                  "npm"
+                },
+                r.req.to_string_normalized()
+              )
+            })
+            .collect(),
+          )
+        })
         .collect();
       let urls: BTreeSet<String> =
         report.loads.iter().map(|l| l.id.url.clone()).collect();
@@ -276,10 +292,22 @@ pub fn run_case(tape: &mut Tape, _tier: Tier, _p: &CaseParams) -> CaseOutcome {
         if !err.starts_with(&format!("Unknown export '{}' for '{}'", export, nv_s))
           || listed != expected
         {
+          let nvs_for_req: BTreeSet<&String> = resolves
+            .iter()
+            .filter(|(r, _)| {
+              parse_req(r)
+                .is_some_and(|x| x.cmp(&req) == std::cmp::Ordering::Equal)
+            })
+            .map(|(_, nv)| nv)
+            .collect();
           out.violation(
             "C07",
             "unknown-export-error",
-            "unknown-export-error-wrong",
+            if nvs_for_req.len() > 1 {
+              "same-requirement-selected-twice:unknown-export"
+            } else {
+              "unknown-export-error-wrong"
+            },
             format!(
               "{}: the manifest of {} has no export {:?} (exports {:?}); entry is {:?}",
               spec, nv_s, export, expected, slots.get(spec.as_str())
@@ -392,10 +420,11 @@ pub fn run_case(tape: &mut Tape, _tier: Tier, _p: &CaseParams) -> CaseOutcome {
           continue;
         }
       }
+      // requirements are compared by range (`@c/d@1` and `@c/d@^1` are one)
       expected_deps
         .entry(nv.clone())
         .or_default()
-        .insert(format!("{}:{}", kind, req));
+        .insert(format!("{}:{}", kind, req.to_string_normalized()));
     }
   }
   // upper bound: what any file of the package imports in the world (a file
@@ -437,7 +466,7 @@ pub fn run_case(tape: &mut Tape, _tier: Tier, _p: &CaseParams) -> CaseOutcome {
         world_deps
           .entry(nv.clone())
           .or_default()
-          .insert(format!("{}:{}", kind, req));
+          .insert(format!("{}:{}", kind, req.to_string_normalized()));
       }
     }
   }
